@@ -13,8 +13,19 @@ Section Confine.
   Definition inr (x : F) : Prop := leb o lo_ x = true /\ leb o x hi_ = true.
   (* a sign-changing finite bracket nested in [lo_, hi_] *)
   Definition Inv (b : bstate) : Prop :=
-    no_bracket o b = false /\ leb o (xmin b) (xmax b) = true /\
-    leb o lo_ (xmin b) = true /\ leb o (xmax b) hi_ = true.
+    (no_bracket o b = false /\ leb o (xmin b) (xmax b) = true /\
+     leb o lo_ (xmin b) = true /\ leb o (xmax b) hi_ = true) /\
+    (* the stored values are the values of f at the stored ends; with the sign change: the ends are different *)
+    fmin b = fst (f (xmin b)) /\ fmax b = fst (f (xmax b)).
+
+  Lemma same_sign_refl a : same_sign o a a = true.
+  Proof. unfold same_sign. apply Z.eqb_refl. Qed.
+
+  Lemma ends_differ b : Inv b -> xmin b <> xmax b.
+  Proof.
+    intros [[Hnb _] [E1 E2]] E. apply orb_false_elim in Hnb. destruct Hnb as [_ Hs].
+    rewrite E1, E2, E, same_sign_refl in Hs. discriminate.
+  Qed.
 
   Lemma no_bracket_false b : no_bracket o b = false ->
     isfinite o (xmin b) = true /\ isfinite o (xmax b) = true /\ same_sign o (fmin b) (fmax b) = false.
@@ -28,8 +39,9 @@ Section Confine.
     fst (get_next o NaNSafe b x) = true /\
     leb o (xmin b) (snd (get_next o NaNSafe b x)) = true /\ leb o (snd (get_next o NaNSafe b x)) (xmax b) = true.
   Proof.
-    intros [Hnb [Hle _]]. destruct (no_bracket_false b Hnb) as [F1 [F2 _]].
-    pose proof (mid_between o L _ _ F1 F2 Hle) as Hmid. cbn zeta in Hmid.
+    intros HI. pose proof (ends_differ b HI) as Hne. destruct HI as [[Hnb [Hle _]] _].
+    destruct (no_bracket_false b Hnb) as [F1 [F2 _]].
+    pose proof (mid_between o L _ _ F1 F2 Hle Hne) as Hmid. cbn zeta in Hmid.
     unfold get_next. rewrite Hnb.
     destruct (negb (iszero o (sub o (fmax b) (fmin b)))); cbn [fst snd]; [|split; [reflexivity | exact Hmid]].
     split; [reflexivity|].
@@ -40,7 +52,7 @@ Section Confine.
   Lemma iterate_in b x : Inv b ->
     leb o (xmin b) (iterate o NaNSafe b x) = true /\ leb o (iterate o NaNSafe b x) (xmax b) = true.
   Proof.
-    intros HI. pose proof HI as [Hnb [Hle _]]. destruct (no_bracket_false b Hnb) as [F1 [F2 _]].
+    intros HI. pose proof HI as [[Hnb [Hle _]] _]. destruct (no_bracket_false b Hnb) as [F1 [F2 _]].
     unfold iterate. rewrite Hnb.
     destruct (isfinite o x) eqn:Fx; cbn [negb orb].
     - destruct (ltb o x (xmin b)) eqn:E1; cbn [orb]; [apply get_next_in; assumption|].
@@ -51,7 +63,7 @@ Section Confine.
 
   Lemma inr_of_bracket b x : Inv b -> leb o (xmin b) x = true -> leb o x (xmax b) = true -> inr x.
   Proof.
-    intros [_ [_ [H1 H2]]] Ha Hb. split; eapply (le_trans o L); eauto.
+    intros [[_ [_ [H1 H2]]] _] Ha Hb. split; eapply (le_trans o L); eauto.
   Qed.
 
   Lemma same_sign_chain a b d : same_sign o a b = true -> same_sign o a d = false -> same_sign o b d = false.
@@ -59,9 +71,9 @@ Section Confine.
     unfold same_sign. intros H1 H2. apply Z.eqb_eq in H1. apply Z.eqb_neq in H2. apply Z.eqb_neq. congruence.
   Qed.
 
-  Lemma update_bounds_inv b x fx : Inv b -> Inv (update_bounds o b x fx).
+  Lemma update_bounds_inv b x fx : Inv b -> fx = fst (f x) -> Inv (update_bounds o b x fx).
   Proof.
-    intros HI. pose proof HI as [Hnb [Hle [Hlo Hhi]]]. destruct (no_bracket_false b Hnb) as [F1 [F2 Hs]].
+    intros HI Efx. pose proof HI as [[Hnb [Hle [Hlo Hhi]]] [Emin Emax]]. destruct (no_bracket_false b Hnb) as [F1 [F2 Hs]].
     unfold update_bounds.
     destruct (isfinite o x) eqn:Fx; cbn [negb orb]; [|exact HI].
     destruct (isfinite o fx) eqn:Ffx; cbn [negb orb]; [|exact HI].
@@ -83,13 +95,13 @@ Section Confine.
       + eapply (le_trans o L); [apply (lt_le o L); eassumption | exact Hhi].
   Qed.
 
-  Lemma loop_confined : forall p fuel i b x fv dfv dx calls, Inv b ->
+  Lemma loop_confined : forall p fuel i b x fv dfv dx calls, Inv b -> fv = fst (f x) ->
     exists new, snd (loop p fuel i b x fv dfv dx calls) = new ++ calls /\ Forall inr new.
   Proof.
-    intros p fuel; induction fuel as [|n IH]; intros i b x fv dfv dx calls HI.
+    intros p fuel; induction fuel as [|n IH]; intros i b x fv dfv dx calls HI Efv.
     - cbn. exists []; split; [reflexivity | constructor].
     - cbn [C09Model.loop].
-      pose proof (update_bounds_inv b x fv HI) as HI'.
+      pose proof (update_bounds_inv b x fv HI Efv) as HI'.
       set (b' := update_bounds o b x fv) in *.
       assert (FIN : forall have x' fv' dx' calls' new', calls' = new' ++ calls -> Forall inr new' ->
         exists new, snd
@@ -102,7 +114,7 @@ Section Confine.
         - exists new'; split; [exact Hc | exact Hn].
         - destruct (IH (S i) b' (iterate o NaNSafe b' (add o x' dx')) (fst (f (iterate o NaNSafe b' (add o x' dx'))))
                        (snd (f (iterate o NaNSafe b' (add o x' dx')))) dx'
-                       (iterate o NaNSafe b' (add o x' dx') :: calls') HI') as [nw [E Hf]].
+                       (iterate o NaNSafe b' (add o x' dx') :: calls') HI' eq_refl) as [nw [E Hf]].
           exists (nw ++ iterate o NaNSafe b' (add o x' dx') :: new'). split.
           + rewrite E, Hc, <- app_assoc. reflexivity.
           + apply Forall_app; split; [exact Hf|]. constructor; [|exact Hn].
@@ -130,7 +142,7 @@ Section Top.
   Qed.
 
   Lemma initial_inv p : valid_bracket o f (xmin0 p) (xmax0 p) ->
-    Inv o (lo o (xmin0 p) (xmax0 p)) (hi o (xmin0 p) (xmax0 p)) (fst (initial_bounds o f p)) /\
+    Inv o f (lo o (xmin0 p) (xmax0 p)) (hi o (xmin0 p) (xmax0 p)) (fst (initial_bounds o f p)) /\
     snd (initial_bounds o f p) = [xmax0 p; xmin0 p; x0 p].
   Proof.
     intros [Fa [Fb [Ffa [Ffb Hs]]]]. apply sign_same_sign in Hs.
@@ -156,7 +168,7 @@ Section Top.
     - cbn. intros x [].
     - destruct (initial_bounds o f p) as [b calls]. cbn [fst snd] in HI, Hc. subst calls.
       destruct (loop_confined o L f c _ _ p (S n) 0 b (x0 p) (fst (f (x0 p))) (snd (f (x0 p))) (zero o)
-                              [xmax0 p; xmin0 p; x0 p] HI) as [new [E Hf]].
+                              [xmax0 p; xmin0 p; x0 p] HI eq_refl) as [new [E Hf]].
       destruct (loop o NaNSafe f c p (S n) 0 b _ _ _ _ _) as [[[? ?] ?] calls']. cbn [snd] in E. subst calls'.
       intros x Hin. rewrite app_length in Hin. cbn [length] in Hin.
       replace (length new + 3 - 3) with (length new + 0) in Hin by lia.
